@@ -10,7 +10,9 @@ import (
 )
 
 // Safe alphabet: letters and digits (ASCII and non-ASCII), single inner blanks. Nothing Markdown gives meaning to.
-var safeWords = []string{"alpha", "beta", "Gamma", "delta", "x1", "42", "Lorem", "ipsum", "dolor", "Zed", "q", "k9", "seven", "中文", "日本語", "é", "ñandu", "Ωmega", "straße", "2024", "B"}
+var safeWords = []string{"alpha", "beta", "Gamma", "delta", "x1", "42", "Lorem", "ipsum", "dolor", "Zed", "q", "k9", "seven", "中文", "日本語", "é", "ñandu", "Ωmega", "straße", "2024", "B",
+	// words that are prefixes of one another or differ in case only; letters outside the BMP and combining marks at word edges
+	"Alpha", "alphabet", "ALPHA", "𝒳", "𝒳𝒴z", "a𐐷", "𠮷野", "e\u0301", "n\u0303o", "१२"}
 
 // code block lines may carry any punctuation: fenced content is literal
 var codeLines = []string{"x := 1", "a*b + c_d", "# not a heading", "- not a list", "if (a < b) { return }", "print(\"hi\")", "1. one", "| a | b |", "**x**", "plain words", "tab\there"}
@@ -68,7 +70,10 @@ func (g *gctx) hostileWords(label string) string {
 // benign features: shapes that need no hostile text - lists, code blocks, empty paragraphs, plain table headers,
 // multi-format and code+emphasis runs, Heading7-9, blanks at run edges, formatted runs that touch each other
 // ("adjacent") or a plain neighbour without a blank in between ("touch"), wrapped formatted text
-var benignFeats = []string{"list", "list", "list", "code", "code", "empty", "plainhdr", "multifmt", "deephead", "edge", "edge", "codecombo", "adjacent", "adjacent", "touch", "touch", "wrapfmt"}
+var benignFeats = []string{"list", "list", "list", "code", "code", "empty", "plainhdr", "multifmt", "deephead", "edge", "edge", "codecombo", "adjacent", "adjacent", "touch", "touch", "wrapfmt",
+	// widened: blanks other than a space (line ends, tabs, blanks outside Zs) at run edges and between words; headings, items,
+	// quotes and code paragraphs without visible text, blank-only runs, page break paragraphs
+	"oddblank", "oddblank", "blanktext"}
 
 // wild features: output shapes that are open findings as a whole
 var wildFeats = []string{"nogfm", "nogfm", "meta"}
@@ -77,12 +82,17 @@ var wildFeats = []string{"nogfm", "nogfm", "meta"}
 // (a delimiter run next to one of them is not flanking, exactly as next to a space)
 var edgeBlanks = []string{" ", "", "\u00a0", "  ", "\t", "\u3000", "\u2003", "\u2002", "\u2009", "\u1680", "\u200a", "\u2004", "\u2005", "\u2006", "\u2007", "\u2008", " \u00a0"}
 
+// feature "oddblank": line ends and tabs instead of a space, and the characters Go's unicode.IsSpace and CommonMark's
+// "Unicode whitespace" (Zs, tab, line feed, form feed, carriage return) classify differently or that are rarely met
+var oddBlanks = []string{"\n", "\t", "\r\n", " \n", "\n ", "\t\t", "\u202f", "\u205f", "\u2028", "\u0085", "\u2029", "\r"}
+
 type gctx struct {
-	t  *rapid.T
-	f  map[string]bool
-	o  Opts
-	hc []string // hostile classes chosen for the case
-	hp int      // a text is hostile with probability 1/hp
+	t   *rapid.T
+	f   map[string]bool
+	o   Opts
+	hc  []string // hostile classes chosen for the case
+	hp  int      // a text is hostile with probability 1/hp
+	big string   // the dimension that goes past the usual sizes ("" = none)
 }
 
 func genCase(t *rapid.T) Case {
@@ -129,19 +139,20 @@ func genCase(t *rapid.T) Case {
 		}
 	}
 	// how the options reach the exporter, and which other exports happen between the judged ones
-	via := rapid.SampledFrom([]string{"", "", "default", "", "", "nilexp", "", "", "hq", "", "", ""}).Draw(t, "via")
+	via := rapid.SampledFrom([]string{"", "", "default", "", "", "nilexp", "", "ctor", "hq", "", "literal", "", "", "ctor2", "", ""}).Draw(t, "via")
+	fromLibrary := via == "default" || via == "nilexp" || via == "hq"
 	var hist []Step
 	nh := rapid.SampledFrom([]int{0, 1, 0, 2, 0, 0}).Draw(t, "nhist")
-	if via != "" && nh == 0 {
+	if fromLibrary && nh == 0 {
 		nh = 1 // options taken from the library's constructors are only interesting with other users of them around
 	}
 	for i := 0; i < nh; i++ {
-		k := rapid.SampledFrom([]string{"mutdefault", "hq", "struct", "mutdefault", "nilexp"}).Draw(t, "hk")
-		if via != "" && i == 0 {
+		k := rapid.SampledFrom([]string{"mutdefault", "hq", "struct", "mutdefault", "nilexp", "literal"}).Draw(t, "hk")
+		if fromLibrary && i == 0 {
 			k = rapid.SampledFrom([]string{"mutdefault", "hq", "mutdefault"}).Draw(t, "hk0")
 		}
 		st := Step{K: k}
-		if k == "mutdefault" || k == "struct" {
+		if k == "mutdefault" || k == "struct" || k == "literal" {
 			st.O = Opts{GFM: rapid.Bool().Draw(t, "hgfm"), Setext: rapid.Bool().Draw(t, "hsetext"), Bullet: rapid.SampledFrom([]string{"+", "*", "-"}).Draw(t, "hbullet"),
 				Emph: rapid.SampledFrom([]string{"_", "*"}).Draw(t, "hemph"), Wrap: rapid.Bool().Draw(t, "hwrap"), MaxLen: rapid.SampledFrom([]int{10, 1, 40}).Draw(t, "hmaxlen"),
 				Meta: rapid.IntRange(0, 3).Draw(t, "hmeta") > 0}
@@ -157,13 +168,27 @@ func genCase(t *rapid.T) Case {
 		MaxLen: rapid.SampledFrom([]int{1, 10, 20, 40, 80}).Draw(t, "maxlen"),
 		Meta:   g.f["meta"],
 	}
+	if oneIn(t, "maxlenx", 8) { // limits next to the usual ones, none, negative, very large
+		g.o.MaxLen = rapid.SampledFrom([]int{0, 2, 79, 81, -1, 3, 1000, 65536, 9, 11}).Draw(t, "maxlen3")
+	}
 	if g.f["wrapfmt"] {
 		g.o.MaxLen = rapid.SampledFrom([]int{1, 10, 20}).Draw(t, "maxlen2")
 	}
-	if via != "" {
+	if fromLibrary {
 		g.o = viaOpts(via) // the documented values of what the constructor returns
 	}
+	// sizes past the usual ones, with a small probability (one dimension per case)
+	if oneIn(t, "bigp", 25) {
+		g.big = rapid.SampledFrom([]string{"runs", "cols", "rows", "blocks", "text", "runs", "cols", "rows", "word", "runs", "cols", "rows", "word", "text", "blocks", "runs"}).Draw(t, "big")
+		if oneIn(t, "hugep", kit.Scale(40, 12)) {
+			g.big = "huge" // a text of more than 64 KiB (expensive: rare; a fixed case has one in every run)
+		}
+		feats = append(feats, "big:"+g.big)
+	}
 	n := rapid.IntRange(1, kit.Scale(10, 16)).Draw(t, "nblocks")
+	if g.big == "blocks" {
+		n = rapid.SampledFrom([]int{17, 33, 20, 17, 65, 24}).Draw(t, "nblocksbig")
+	}
 	interleave := rapid.IntRange(0, 2).Draw(t, "interleave") > 0
 	var text, tables []Block
 	var blocks []Block
@@ -189,7 +214,9 @@ func genCase(t *rapid.T) Case {
 			}
 		}
 	}
-	return Case{Mode: mode, Feats: feats, Blocks: blocks, O: g.o, Via: via, Hist: hist}
+	c := Case{Mode: mode, Feats: feats, Blocks: blocks, O: g.o, Via: via, Hist: hist}
+	g.wide(&c)
+	return c
 }
 
 // txt: text of a heading, item, quote, cell or plain run: safe words, or (feature md) hostile words.
@@ -197,7 +224,35 @@ func (g *gctx) txt(label string, min, max int) string {
 	if g.f["md"] && rapid.IntRange(1, g.hp).Draw(g.t, label+"h") == 1 {
 		return g.hostileWords(label)
 	}
-	return words(g.t, label, min, max)
+	return g.words(label, min, max)
+}
+
+// words: safe words; with the feature "oddblank" one of the blanks between them may be a line end, a tab or a blank
+// outside Zs; the dimension "text"/"huge"/"word" makes one text of the case long.
+func (g *gctx) words(label string, min, max int) string {
+	t := g.t
+	switch g.big {
+	case "text", "huge":
+		huge := g.big == "huge"
+		g.big = ""
+		n := rapid.SampledFrom([]int{300, 1200}).Draw(t, label+"long")
+		if huge {
+			n = 13000 // > 64 KiB
+		}
+		ws := make([]string, n)
+		for i := range ws {
+			ws[i] = safeWords[(i*7+n)%len(safeWords)]
+		}
+		return strings.Join(ws, " ")
+	case "word":
+		g.big = ""
+		return strings.Repeat(rapid.SampledFrom(safeWords).Draw(t, label+"rep"), rapid.SampledFrom([]int{30, 90, 300}).Draw(t, label+"repn")) + " " + words(t, label, 1, 2)
+	}
+	s := words(t, label, min, max)
+	if g.f["oddblank"] && strings.Contains(s, " ") && rapid.IntRange(0, 2).Draw(t, label+"ob") == 0 {
+		s = strings.Replace(s, " ", rapid.SampledFrom(oddBlanks).Draw(t, label+"obk"), 1)
+	}
+	return s
 }
 
 func (g *gctx) block(i int) Block {
@@ -213,9 +268,35 @@ func (g *gctx) block(i int) Block {
 		kinds = append(kinds, "empty", "empty", "empty")
 	}
 	k := rapid.SampledFrom(kinds).Draw(t, "kind")
+	if g.f["blanktext"] && oneIn(t, "blankt", 3) {
+		// a block of any kind without visible text: nothing of it can appear in the Markdown
+		bt := rapid.SampledFrom([]string{"", " ", "\t", "  ", "\u00a0", "\n"}).Draw(t, "blanktt")
+		switch k {
+		case "h":
+			return Block{K: "h", Level: rapid.IntRange(1, 6).Draw(t, "level"), T: bt}
+		case "q", "code":
+			return Block{K: k, T: bt}
+		case "li":
+			return Block{K: "li", Ord: rapid.Bool().Draw(t, "ord"), T: bt}
+		case "empty":
+			return Block{K: "empty", Brk: true}
+		case "p":
+			rs := []Run{{T: bt}}
+			if rapid.Bool().Draw(t, "blankfmt") {
+				rs[0].B = true
+			}
+			if rapid.Bool().Draw(t, "blank2") {
+				rs = append(rs, Run{T: " ", I: true})
+			}
+			return Block{K: "p", Runs: rs}
+		}
+	}
 	switch k {
 	case "h":
 		s := g.txt("ht", 1, 3)
+		if g.f["oddblank"] && rapid.IntRange(0, 3).Draw(t, "hodd") == 0 {
+			s = rapid.SampledFrom(oddBlanks).Draw(t, "hol") + s + rapid.SampledFrom(oddBlanks).Draw(t, "hor")
+		}
 		if g.f["edge"] && rapid.IntRange(0, 3).Draw(t, "hedge") == 0 {
 			s = rapid.SampledFrom(edgeBlanks).Draw(t, "hel") + s + rapid.SampledFrom(edgeBlanks).Draw(t, "her")
 		}
@@ -237,12 +318,22 @@ func (g *gctx) block(i int) Block {
 		case c <= 3:
 			return Block{K: "code", T: rapid.SampledFrom(codeLines).Draw(t, "cl")}
 		}
-		return Block{K: "code", T: words(t, "ct", 1, 3)}
+		return Block{K: "code", T: g.words("ct", 1, 3)}
 	case "empty":
-		return Block{K: "empty"}
+		return Block{K: "empty", Brk: rapid.SampledFrom([]bool{false, false, true, false}).Draw(t, "pagebreak")}
 	case "table":
 		rows := rapid.IntRange(1, 5).Draw(t, "rows")
 		cols := rapid.IntRange(1, 5).Draw(t, "cols")
+		switch g.big {
+		case "cols":
+			g.big = ""
+			cols = rapid.SampledFrom([]int{6, 9, 10, 11, 12, 17, 33}).Draw(t, "colsbig")
+			rows = rapid.IntRange(1, 3).Draw(t, "rowsfew")
+		case "rows":
+			g.big = ""
+			rows = rapid.SampledFrom([]int{6, 9, 10, 11, 12, 17, 33, 65}).Draw(t, "rowsbig")
+			cols = rapid.IntRange(1, 3).Draw(t, "colsfew")
+		}
 		cells := make([][]string, rows)
 		for r := range cells {
 			cells[r] = make([]string, cols)
@@ -269,6 +360,10 @@ func (g *gctx) block(i int) Block {
 func (g *gctx) para() Block {
 	t := g.t
 	n := rapid.IntRange(1, 5).Draw(t, "nruns")
+	if g.big == "runs" {
+		g.big = ""
+		n = rapid.SampledFrom([]int{6, 8, 9, 10, 11, 16, 17, 33, 65, 70}).Draw(t, "nrunsbig")
+	}
 	runs := make([]Run, 0, n)
 	prevFmt := false
 	for i := 0; i < n; i++ {
@@ -300,9 +395,9 @@ func (g *gctx) para() Block {
 				}
 			}
 			if g.f["wrapfmt"] {
-				r.T = words(t, "fw", 2, 4)
+				r.T = g.words("fw", 2, 4)
 			} else {
-				r.T = words(t, "fw", 1, 3)
+				r.T = g.words("fw", 1, 3)
 			}
 			if g.f["md"] && rapid.IntRange(1, g.hp).Draw(t, "fh") == 1 {
 				if r.C && rapid.IntRange(0, 2).Draw(t, "tick") == 0 {
@@ -314,9 +409,21 @@ func (g *gctx) para() Block {
 			if g.f["edge"] && rapid.IntRange(0, 1).Draw(t, "fe") == 0 {
 				r.T = rapid.SampledFrom(edgeBlanks).Draw(t, "fel") + r.T + rapid.SampledFrom(edgeBlanks).Draw(t, "fer")
 			}
+			if g.f["oddblank"] && rapid.IntRange(0, 2).Draw(t, "fo") == 0 {
+				l, rr := rapid.SampledFrom(oddBlanks).Draw(t, "fol"), rapid.SampledFrom(oddBlanks).Draw(t, "for")
+				switch rapid.IntRange(0, 2).Draw(t, "fos") {
+				case 0:
+					rr = ""
+				case 1:
+					l = ""
+				}
+				r.T = l + r.T + rr
+			}
 		} else {
-			if rapid.IntRange(0, 19).Draw(t, "emptyrun") == 0 {
+			if er := rapid.IntRange(0, 19).Draw(t, "emptyrun"); er == 0 {
 				r.T = ""
+			} else if er == 1 && g.f["blanktext"] {
+				r.T = rapid.SampledFrom([]string{" ", "\t", "  ", "\n"}).Draw(t, "blankrun") // a blank-only run (first, last or in between)
 			} else {
 				r.T = g.txt("pw", 1, 4)
 			}
@@ -334,11 +441,18 @@ func (g *gctx) para() Block {
 		if runs[i].mask() != 0 || runs[i].T == "" {
 			continue
 		}
+		sp := " "
+		if g.f["oddblank"] && rapid.IntRange(0, 2).Draw(t, "bodd") == 0 {
+			sp = rapid.SampledFrom(oddBlanks).Draw(t, "boddk")
+		}
+		if blank(runs[i].T) {
+			continue
+		}
 		if i > 0 && firstNonEmptyBefore(runs, i) && rapid.IntRange(0, blankOf).Draw(t, "bl") > 0 != g.f["touch"] {
-			runs[i].T = " " + runs[i].T
+			runs[i].T = sp + runs[i].T
 		}
 		if i+1 < len(runs) && nonEmptyAfter(runs, i) && rapid.IntRange(0, blankOf).Draw(t, "br") > 0 != g.f["touch"] {
-			runs[i].T = runs[i].T + " "
+			runs[i].T = runs[i].T + sp
 		}
 	}
 	return Block{K: "p", Runs: runs}
@@ -383,7 +497,62 @@ func fixedCases() []Case {
 	if os.Getenv("C20_NOHOSTILEDOC") != "" { // development aid: sensitivity of the generated search alone
 		cs = cs[:4]
 	}
+	if os.Getenv("C20_NOWIDEFIXED") == "" {
+		cs = append(cs, wideFixed()...)
+	}
 	return cs
+}
+
+// wideFixed: hand-written cases of the widened dimensions (every run executes them): the file based entry points,
+// documents of several sections written by another producer, the 10th and 11th input of a batch, sizes past the
+// usual ones (a text of more than 64 KiB, 70 runs, 12 columns, 33 rows).
+func wideFixed() []Case {
+	def := Opts{GFM: true, Bullet: "-", Emph: "*", MaxLen: 80}
+	p := func(ws ...string) Block {
+		b := Block{K: "p"}
+		for i, w := range ws {
+			b.Runs = append(b.Runs, Run{T: w, B: i%3 == 1, I: i%5 == 3})
+		}
+		return b
+	}
+	tbl := Block{K: "table", Cells: [][]string{{"Key", "Value"}, {"kone", "vone"}}, HdrBold: true}
+	sect := func(b Block) Block { b.Sect = true; return b }
+	multi := []Block{{K: "h", Level: 1, T: "Title"}, sect(p("first ", "bold", " end")), {K: "h", Level: 2, T: "Part"}, p("second"), tbl, {K: "li", T: "item"}, {K: "q", T: "quoted"}, p("closing")}
+	three := []Block{sect(Block{K: "h", Level: 1, T: "One", Split: 1}), p("alpha"), sect(p("beta ", "Gamma", " delta")), tbl, {K: "code", T: "x := 1"}, sect(Block{K: "q", T: "said"}), p("omega")}
+	three[2].Runs[0].Split = 2
+	three[2].MarkFmt = mB | mI
+	var many Block
+	many.K = "p"
+	for i := 0; i < 70; i++ {
+		many.Runs = append(many.Runs, Run{T: safeWords[i%len(safeWords)] + " ", B: i%2 == 1, S: i%7 == 3})
+	}
+	wideT := Block{K: "table", HdrBold: true, Cells: [][]string{make([]string, 12), make([]string, 12)}}
+	for j := 0; j < 12; j++ {
+		wideT.Cells[0][j], wideT.Cells[1][j] = "h"+string(rune('a'+j)), "c"+string(rune('a'+j))
+	}
+	longT := Block{K: "table", HdrBold: true}
+	for i := 0; i < 33; i++ {
+		longT.Cells = append(longT.Cells, []string{"r" + string(rune('a'+i%26)) + string(rune('a'+i/26)), safeWords[i%len(safeWords)]})
+	}
+	hugeWords := make([]string, 13000)
+	for i := range hugeWords {
+		hugeWords[i] = safeWords[(i*7)%21]
+	}
+	huge := strings.Join(hugeWords, " ")
+	var ten []Block
+	for i := 0; i < 12; i++ {
+		ten = append(ten, p("para"+string(rune('a'+i)), " word"))
+	}
+	return []Case{
+		{Mode: "fixed", Blocks: multi, O: def, W: &Wide{Sink: "file", Src: "foreign"}},
+		{Mode: "fixed", Blocks: three, O: Opts{GFM: true, Setext: true, Bullet: "*", Emph: "_", MaxLen: 80}, W: &Wide{Src: "foreign", F: Foreign{Prefix: "ns0", Rsid: true, On: "1", NoStyles: true, DirEnt: true, AbsTarget: true, BareTable: true}, Shared: true}},
+		{Mode: "fixed", Blocks: multi, O: def, Via: "ctor", W: &Wide{Sink: "auto", Src: "saved", Names: "upper"}, Hist: []Step{{K: "hq"}}},
+		{Mode: "fixed", Blocks: ten, O: def, W: &Wide{Sink: "batch", Batch: []int{1, 2, 3, 4, 5, 6, 7, 8, 9, 10, 11}, At: 11, Shared: true}},
+		{Mode: "fixed", Blocks: []Block{{K: "h", Level: 2, T: "Big"}, many, wideT, p("between"), longT, p("after")}, O: Opts{GFM: true, Bullet: "+", Emph: "_", Wrap: true, MaxLen: 40}, W: &Wide{Sink: "bytes", RT: "bytes", Conv: true}},
+		{Mode: "fixed", Blocks: []Block{p(huge), {K: "code", T: strings.ReplaceAll(huge, " ", "_")}, {K: "q", T: "end"}}, O: Opts{GFM: true, Bullet: "-", Emph: "*", Wrap: true, MaxLen: 80}},
+		{Mode: "fixed", Blocks: multi[:5], O: def, W: &Wide{Sink: "file", RT: "file", Names: "space", Other: []Block{p("another document, longer than the first one: ", "words", " and more words")}, Shared: true},
+			Hist: []Step{{K: "otherdoc"}, {K: "badfile"}}},
+	}
 }
 
 // hostileDoc: every class of Markdown syntax as text of every kind of block. Only with longTicks there are code-font
